@@ -81,4 +81,20 @@ def childFacesN (mid : Nat → Nat → Nat) (f : Face) : List Face :=
   let m0 := mid a b; let m1 := mid b c; let m2 := mid c a
   [(a, m0, m2), (m0, b, m1), (m2, m1, c), (m0, m1, m2)]
 
+/-! `subdivide_to_size`, one face at a time (squared lengths) -/
+def len2R (p q : V) : Rat := let d := subV q p; d.1 * d.1 + d.2.1 * d.2.1 + d.2.2 * d.2.2
+def maxEdge2R (t : Tri) : Rat := max (max (len2R t.1 t.2.1) (len2R t.2.1 t.2.2)) (len2R t.2.2 t.1)
+def toSizeR (m2 : Rat) : Nat → Tri → Option (List Tri)
+  | 0, t => if maxEdge2R t ≤ m2 then some [t] else none
+  | fuel + 1, t =>
+    if maxEdge2R t ≤ m2 then some [t]
+    else ((childrenR t.1 t.2.1 t.2.2).mapM (toSizeR m2 fuel)).map List.flatten
+/-- does the recursion meet a longest edge within a relative `tol` of the bound (a tie the float code may break
+    either way)? -/
+def toSizeTie (m2 tol : Rat) : Nat → Tri → Bool
+  | 0, t => decide (m2 * (1 - tol) ≤ maxEdge2R t ∧ maxEdge2R t ≤ m2 * (1 + tol))
+  | fuel + 1, t =>
+    decide (m2 * (1 - tol) ≤ maxEdge2R t ∧ maxEdge2R t ≤ m2 * (1 + tol)) ||
+    (!decide (maxEdge2R t ≤ m2) && (childrenR t.1 t.2.1 t.2.2).any (toSizeTie m2 tol fuel))
+
 end TV.GeomRat
